@@ -22,7 +22,7 @@ from harness import values as V
 from harness.props import _group as G
 
 PID = "C12"
-TRANSLATE = ["EqReduce.v"]    # translator tie: coq/gen_proofs/EqReduce.v is re-proved against the reductions regenerated from /repo
+TRANSLATE = ["EqReduce.v", "EqPartition.v"]    # translator tie: coq/gen_proofs/EqReduce.v is re-proved against the reductions regenerated from /repo
 PRELUDE = ("From Coq Require Import List ZArith.\nImport ListNotations.\n"
            "From Serif Require Import Base.PyVal Model.Group Corr.GroupCase Corr.C12.")
 FAILING = "C12.failing"
